@@ -192,10 +192,12 @@ type c14cfg2 struct {
 	MaxConns int8       `dialsalias:"connection_limit"`
 	LogLevel string     `dials:"log_level" dialsenvalias:"VERBOSITY"`
 	Server   c14nested2 `dials:"server"`
+	// an explicit source-specific primary name next to a generic alias
+	Region string `dials:"region" dialsalias:"zone" dialsenv:"THE_REGION"`
 }
 
 func HarnessC14EnvImplicit() {
-	vars := []string{"MAX_CONNS", "CONNECTION_LIMIT", "LOG_LEVEL", "VERBOSITY", "SERVER_LISTEN_ADDR", "SERVER_ADDR"}
+	vars := []string{"MAX_CONNS", "CONNECTION_LIMIT", "LOG_LEVEL", "VERBOSITY", "SERVER_LISTEN_ADDR", "SERVER_ADDR", "THE_REGION", "ZONE", "REGION"}
 	clear := func() {
 		for _, v := range vars {
 			zzverif.Unsetenv(v)
@@ -206,13 +208,14 @@ func HarnessC14EnvImplicit() {
 	pConns := c14set("conns", c14leaf{"MAX_CONNS", "CONNECTION_LIMIT", "MaxConns"}, "4")
 	pLog := c14set("log", c14leaf{"LOG_LEVEL", "VERBOSITY", "LogLevel"}, "dbg")
 	pAddr := c14set("addr", c14leaf{"SERVER_LISTEN_ADDR", "SERVER_ADDR", "ListenAddr"}, ":80")
+	pRegion := c14set("region", c14leaf{"THE_REGION", "ZONE", "Region"}, "eu")
 	t := dials.NewType(ptrify.Pointerify(reflect.TypeOf(c14cfg2{}), reflect.Value{}))
 	val, err := (&Source{}).Value(context.Background(), t)
-	anyBoth := pConns == 3 || pLog == 3 || pAddr == 3
+	anyBoth := pConns == 3 || pLog == 3 || pAddr == 3 || pRegion == 3
 	if err != nil {
 		zzverif.Assert(anyBoth, "C14 the environment source failed although no field was given under both its names")
 		msg := err.Error()
-		named := (pConns == 3 && strings.Contains(msg, "MaxConns")) || (pLog == 3 && strings.Contains(msg, "LogLevel")) || (pAddr == 3 && strings.Contains(msg, "ListenAddr"))
+		named := (pConns == 3 && strings.Contains(msg, "MaxConns")) || (pLog == 3 && strings.Contains(msg, "LogLevel")) || (pAddr == 3 && strings.Contains(msg, "ListenAddr")) || (pRegion == 3 && strings.Contains(msg, "Region"))
 		if !zzverif.Symbolic() {
 			zzverif.Assert(named, "C14 the both-names error does not name the field: "+msg)
 		}
@@ -233,6 +236,10 @@ func HarnessC14EnvImplicit() {
 	if pAddr != 0 && !f("Server").IsNil() {
 		a := f("Server").Elem().FieldByName("ListenAddr")
 		zzverif.Assert(!a.IsNil() && a.Elem().String() == ":80", "C14 SERVER_LISTEN_ADDR/SERVER_ADDR: wrong value")
+	}
+	zzverif.Assert(f("Region").IsNil() == (pRegion == 0), "C14 THE_REGION/ZONE (explicit dialsenv name next to a generic alias): field set although neither name was supplied, or unset although one was")
+	if pRegion != 0 && !f("Region").IsNil() {
+		zzverif.Assert(f("Region").Elem().String() == "eu", "C14 THE_REGION/ZONE: wrong value")
 	}
 	zzverif.Reached("c14-implicit-end")
 }
